@@ -98,7 +98,7 @@ def run(ctx):
                 bad['interval %d has mapping rows at steps of another interval' % k] = sorted(set(wrong))[:5]
             off += nv
         if off != len(s['c']) or any(not (0 <= r['index'] < off) for r in s['mapping']):
-            bad['mapping index outside the variables'] = True
+            bad['mapping index outside the variables'] = [r['index'] for r in s['mapping'] if not (0 <= r['index'] < off)][:5] or [off, len(s['c'])]
         # ---- dispatch rows of ordinary assets = those of the unsplit problem
         plain = [a['name'] for a in sp['assets'] if a['kind'] not in SPECIAL]
         # (which (asset, node, step) carry dispatch; the number of variables per step may differ: a contract whose spread is zero
@@ -120,7 +120,7 @@ def run(ctx):
         coupled_hard = any(a['kind'] == 'Storage' and a.get('start_level', 0.0) != a.get('end_level', 0.0) for a in sp['assets'])
         coupled = any(a['kind'] == 'Storage' or a.get('max_take') or a.get('min_take') for a in sp['assets'])
         special = any(k in SPECIAL for k in kinds)
-        if s.get('solve') == 'optimal' and o.get('solve') == 'optimal' and not special and not coupled_hard:
+        if s.get('solve') == 'optimal' and o.get('solve') == 'optimal' and not special and not coupled_hard and 'mapping index outside the variables' not in bad:
             ku, ks = var_keys(o['problem']['mapping']), var_keys(s['mapping'])
             inv = {}
             for j, k in ku.items():
